@@ -435,9 +435,22 @@ def cli_part(chk, scratch, n_pairs):
             opts += ["--high_memory"]
         r1 = runner.run_isoquant(["-o", os.path.join(d, "o1"), "--bam", os.path.join(d, "r.bam"), "-p", "SMP", "--keep_tmp"] + opts, home)
         r2 = None
+        saved = {}
         if r1["rc"] == 0:
+            import glob
+            import hashlib
+            aux = os.path.join(d, "o1", "SMP", "aux")
+            before = {p: hashlib.sha256(open(p, "rb").read()).hexdigest() for p in glob.glob(os.path.join(aux, "SMP.save*")) if not p.endswith(("_lock", "_processed"))}
             r2 = runner.run_isoquant(["-o", os.path.join(d, "o2"), "--read_assignments", os.path.join(d, "o1", "SMP", "aux", "SMP.save"),
                                       "-p", "SMP"] + opts, home)
+            after = {p: (hashlib.sha256(open(p, "rb").read()).hexdigest() if os.path.exists(p) else None) for p in before}
+            saved = {"files": len(before), "removed": sorted(os.path.basename(p) for p in before if after[p] is None),
+                     "changed": sorted(os.path.basename(p) for p in before if after[p] is not None and after[p] != before[p])}
+            if r2["rc"] == 0 and i % 3 != 2:
+                # the saved assignments are reusable more than once: the same restart again, into another folder
+                saved["again"] = runner.run_isoquant(["-o", os.path.join(d, "o3"), "--read_assignments", os.path.join(d, "o1", "SMP", "aux", "SMP.save"),
+                                                      "-p", "SMP"] + opts, home)
+        r1["saved"] = saved
         return d, r1, r2, opts
 
     results = runner.parallel(one, list(range(n_pairs)), workers=8)
@@ -453,6 +466,27 @@ def cli_part(chk, scratch, n_pairs):
             chk.violation("reuse:run-from-saved-assignments-failed", "--read_assignments run exited %s: %s" % (r2["rc"], r2["out"][-400:]),
                           {"opts": opts})
             continue
+        # (d) the saved files survive their reuse unchanged, and can be reused again
+        sv = r1.get("saved", {})
+        chk.count("saved_files_checked_after_reuse", sv.get("files", 0))
+        if sv.get("removed") or sv.get("changed"):
+            chk.violation("reuse:saved-assignments-%s-by-the-restarted-run" % ("removed" if sv.get("removed") else "changed"),
+                          "after the --read_assignments run, of %d saved files removed: %s changed: %s" % (sv.get("files", 0), sv.get("removed")[:4], sv.get("changed")[:4]), {"opts": opts})
+        if sv.get("again") is not None:
+            r3 = sv["again"]
+            chk.note()
+            if r3["rc"] is None:
+                chk.inconclusive.append("watchdog expired in the second restart of CLI pair %d" % i)
+            elif r3["rc"] != 0:
+                chk.violation("reuse:second-run-from-saved-assignments-failed", "second --read_assignments run from the same saved files exited %s: %s" % (r3["rc"], r3["out"][-300:]), {"opts": opts})
+            else:
+                for fn in sorted(os.listdir(os.path.join(d, "o2", "SMP0"))):
+                    p2, p3 = os.path.join(d, "o2", "SMP0", fn), os.path.join(d, "o3", "SMP0", fn)
+                    if os.path.isdir(p2):
+                        continue
+                    if not os.path.exists(p3) or runner.normalized(p2) != runner.normalized(p3):
+                        chk.violation("reuse:second-restart-differs:" + fn.split(".", 1)[1], "%s differs between the first and the second run from the same saved assignments" % fn, {"opts": opts})
+                chk.count("second_restarts_compared")
         # (d) the statistics the saving run worked with are the ones the restarted run reads back
         stat = []
         for r_ in (r1, r2):
